@@ -1,5 +1,6 @@
 import OmbottModel.Drv.Common
 import OmbottModel.Model.Forms
+import OmbottModel.Model.FormsShared
 import OmbottModel.Model.BodyAccess
 import OmbottModel.Gen.Forms
 /-!
@@ -11,6 +12,9 @@ Protocol lines of the forms area (all self-contained; text as hex of UTF-8, `~` 
 * `forms bnd <content-type>` — the boundary `_body` hands to `MultipartMarkup`: `none` | `some <text>`
 * `forms proxy <body> <spooled> <st> <en> <ops>` — a `BytesIOProxy(src, st, en)`; ops `.`-separated:
   `r` = `read()`, `r<k>` = `read(k)`, `s<pos>/<whence>` = `seek`, `t` = `tell`
+* `forms proxies <body> <spooled> <windows> <ops>` — several `BytesIOProxy` windows (`st:en,…`) over one shared
+  source; ops `.`-separated `<i>@<op>` (op as above, on window `i`) | `B@r<k>` (`src.read(k)`) | `B@s<pos>` (`src.seek(pos)`);
+  an exception is printed (`err:<Class>`) and the run goes on
 * `forms items <body> <spooled> <max_read> <markups>` — `FieldStorage.iter_items` run to the end
   (markups `d:<s>:<e>` / `h:<s>:<e>`, `.`-separated, `-` = none)
 * `forms enc <boundary> <fields> <epilogue>` — the encoder; fields `;`-separated
@@ -79,6 +83,46 @@ def proxyOps (body : Bytes) (sp : Bool) : Proxy → List String → List String 
       | _ => acc ++ ["bad"]
     else acc ++ ["bad"]
 
+def showOut : Out → String
+  | .bytes b => hexBytes b
+  | .num n => toString n
+  | .err e => s!"err:{e.name}"
+
+def parseWOp (op : String) : Option WOp :=
+  if op == "t" then some .tell
+  else if op == "r" then some (.read none)
+  else if op.startsWith "r" then (op.drop 1).toString.toInt?.map fun k => .read (some k)
+  else if op.startsWith "s" then
+    match ((op.drop 1).toString.splitOn "/") with
+    | [pos, wh] => do
+      let pos ← pos.toInt?
+      let wh ← wh.toNat?
+      pure (.seek pos wh)
+    | _ => none
+  else none
+
+def parseSOp (s : String) : Option SOp :=
+  match s.splitOn "@" with
+  | ["B", op] =>
+    if op.startsWith "r" then (op.drop 1).toString.toInt?.map .srcRead
+    else if op.startsWith "s" then (op.drop 1).toString.toNat?.map .srcSeek
+    else none
+  | [i, op] => do
+    let i ← i.toNat?
+    let op ← parseWOp op
+    pure (.win i op)
+  | _ => none
+
+def parseWindows (s : String) : Option (List Proxy) :=
+  if s == "-" then some [] else
+  (s.splitOn ",").mapM fun w =>
+    match w.splitOn ":" with
+    | [a, b] => do
+      let a ← a.toInt?
+      let b ← b.toInt?
+      pure (Proxy.new a b)
+    | _ => none
+
 def showItem (body : Bytes) (sp : Bool) : Item → String
   | .text v => s!"t:{showOptStr v}"
   | .file u =>
@@ -141,6 +185,11 @@ def handle : List String → Option String
     let st ← st.toInt?
     let en ← en.toInt?
     pure (",".intercalate (proxyOps (unhexBytes body) (bool01 sp) (Proxy.new st en) (ops.splitOn ".") []))
+  | ["proxies", body, sp, wins, ops] => do
+    let wins ← parseWindows wins
+    let ops ← (ops.splitOn ".").mapM parseSOp
+    let outs := runShared wins ⟨unhexBytes body, bool01 sp, 0⟩ ops
+    pure (",".intercalate (outs.map fun o => showOut o.2))
   | ["items", body, sp, mr, ms] => do
     let mr ← mr.toInt?
     let ms ← parseMarkups ms
